@@ -296,8 +296,17 @@ func (l *Lexer) NextToken() token.Token {
 		}
 
 	case rune(0):
-		tok.Literal = ""
-		tok.Type = token.EOF
+		if l.position < len(l.characters) {
+			// A NUL inside the input is not the end of it: refuse
+			// it, rather than silently ignoring what follows.
+			tok.Type = token.ILLEGAL
+			tok.Literal = "illegal NUL character in the input"
+			tok.Column = l.column
+			tok.Line = l.line
+		} else {
+			tok.Literal = ""
+			tok.Type = token.EOF
+		}
 
 	default:
 		if isDigit(l.ch) {
